@@ -182,15 +182,7 @@ public:
 
 		std::lock_guard<Mutex> lockGuard(mutex);
 
-		if(head) {
-			node->previous = tail;
-			tail->next = node;
-			tail = node;
-		}
-		else {
-			head = node;
-			tail = node;
-		}
+		doAppendNode(node);
 
 		return Handle(node);
 	}
@@ -225,7 +217,14 @@ public:
 
 			std::lock_guard<Mutex> lockGuard(mutex);
 
-			doInsert(node, beforeNode);
+			// beforeNode may have been removed already but is kept alive by a running
+			// invocation (or was removed after before.lock() above), then append.
+			if(beforeNode->counter != removedCounter) {
+				doInsert(node, beforeNode);
+			}
+			else {
+				doAppendNode(node);
+			}
 
 			return Handle(node);
 		}
@@ -243,7 +242,7 @@ public:
 		std::lock_guard<Mutex> lockGuard(mutex);
 
 		auto node = handle.lock();
-		if(node) {
+		if(node && node->counter != removedCounter) {
 			doFreeNode(node);
 			return true;
 		}
@@ -256,7 +255,7 @@ public:
 		std::lock_guard<Mutex> lockGuard(mutex);
 
 		auto node = handle.lock();
-		if(node) {
+		if(node && node->counter != removedCounter) {
 			while(node->previous) {
 				node = node->previous;
 			}
@@ -370,6 +369,19 @@ private:
 		-> typename std::enable_if<CanInvoke<Func, Callback &>::value, RT>::type
 	{
 		return func(node->callback);
+	}
+
+	void doAppendNode(NodePtr & node)
+	{
+		if(head) {
+			node->previous = tail;
+			tail->next = node;
+			tail = node;
+		}
+		else {
+			head = node;
+			tail = node;
+		}
 	}
 
 	void doInsert(NodePtr & node, NodePtr & beforeNode)
